@@ -157,6 +157,8 @@ type c13Pop struct {
 	MinCom int      `json:"min_comments"`
 	MaxCom int      `json:"max_comments"`
 	Eng    []c13Eng `json:"engineered"`
+	// number of batches of the mutating session (c13_session.go); 0 = no session
+	Steps int `json:"session_steps,omitempty"`
 }
 
 type c13Finding struct {
@@ -246,6 +248,7 @@ type c13World struct {
 	// on the first identity version (only entities that were not engineered carry one)
 	bugMeta   map[string][]string
 	identMeta map[string][]string
+	authored  map[string]bool // identities that authored an operation
 }
 
 const c13Hex = "0123456789abcdef"
@@ -256,7 +259,7 @@ func c13Build(p c13Pop, acc *c13Acc) (*c13World, error) {
 	if err != nil {
 		return nil, err
 	}
-	cw := &c13World{w: w, rep: w.Replicas[0], bugOps: map[string][]string{}, bugMeta: map[string][]string{}, identMeta: map[string][]string{}}
+	cw := &c13World{w: w, rep: w.Replicas[0], bugOps: map[string][]string{}, bugMeta: map[string][]string{}, identMeta: map[string][]string{}, authored: map[string]bool{}}
 	r := cw.rep
 
 	nEngIdent, nEngBug := 0, 0
@@ -330,7 +333,11 @@ func c13Build(p c13Pop, acc *c13Acc) (*c13World, error) {
 		record("identity", e.K, refmodel.SharedPrefixLen(target, string(id.Id())), tries)
 	}
 
-	author := func() identity.Interface { return cw.idents[rng.Intn(len(cw.idents))] }
+	author := func() identity.Interface {
+		a := cw.idents[rng.Intn(len(cw.idents))]
+		cw.authored[string(a.Id())] = true
+		return a
+	}
 	ncom := func() int { return p.MinCom + rng.Intn(p.MaxCom-p.MinCom+1) }
 
 	// finishBug appends n-1 plain comments to a new bug, commits (sometimes in two commits) and records it.
@@ -475,6 +482,7 @@ type c13Query struct {
 	S    string
 	Kind string // exact | perturb-last | perturb-full | nonhex | overlong | foreign
 	L    int
+	Role string // mutating session only: the role of the id the query derives from
 }
 
 func otherHex(c byte, rng *rand.Rand) byte {
@@ -924,12 +932,14 @@ func c13RunPop(p c13Pop) c13PopResult {
 	}
 	// the same repository in other load states (c13_loadstate.go); replaces the open cache
 	c13LoadStates(p, cw, c, bugPop, identPop, comPop, commentOf, acc)
+	// one long-lived cache over a population that keeps changing (c13_session.go); replaces the open cache
+	sessionSample := c13MutatingSession(p, cw, commentOf, acc)
 
 	acc.count("distinct_queries/bugs", len(bugQ))
 	acc.count("distinct_queries/identities", len(identQ))
 	acc.count("distinct_queries/comments", len(comQ))
 	if len(comments) > 0 {
-		acc.res.Sample = map[string]any{"population": p, "a_bug_id": cw.bugIds[0], "a_combined_id": comments[len(comments)-1].Combined, "of_bug": comments[len(comments)-1].Bug, "of_op": comments[len(comments)-1].Op}
+		acc.res.Sample = map[string]any{"population": p, "a_bug_id": cw.bugIds[0], "a_combined_id": comments[len(comments)-1].Combined, "of_bug": comments[len(comments)-1].Bug, "of_op": comments[len(comments)-1].Op, "a_batch_of_the_mutating_session": sessionSample}
 	}
 	return acc.finish()
 }
@@ -971,6 +981,9 @@ func c13Pops(r *mon.Run) []c13Pop {
 	add := func(p c13Pop) {
 		p.Seed = r.Seed
 		p.Idx = len(pops)
+		if p.Steps == 0 {
+			p.Steps = 8 // the degenerate populations: a short session (it also empties and refills them)
+		}
 		pops = append(pops, p)
 	}
 	// degenerate populations: what the empty prefix does follows from "exactly one entity matches"
@@ -992,6 +1005,7 @@ func c13Pops(r *mon.Run) []c13Pop {
 			p = c13Pop{Bugs: 30 + rng.Intn(31), Idents: 20 + rng.Intn(16), MinCom: 3, MaxCom: 4 + rng.Intn(4)}
 		}
 		p.Name = fmt.Sprintf("random-%d", i)
+		p.Steps = r.Pick(20, 30)
 		maxK := 4
 		// every population: the whole ladder of engineered bug/identity prefixes 1..4, comment collisions,
 		// the 7-character human id shape (4 bug characters + 3 comment characters), cross-namespace twins
@@ -1101,6 +1115,7 @@ func runC13(tier, replay string) int {
 	// (b) populations, one child process each
 	outcomes := runBatchesRetry[c13Pop, c13PopResult](r, "c13pop", pops, 1, 8*time.Minute)
 	partial := map[string]int{}
+	constant := map[string]int{}
 	for i, oc := range outcomes {
 		p := pops[i]
 		if oc.Crashed {
@@ -1133,6 +1148,12 @@ func runC13(tier, replay string) int {
 			if ns, ok := strings.CutPrefix(k, "loadstate_ambiguous_partially_loaded/"); ok {
 				partial[ns] += v
 			}
+			switch k {
+			case "session_batches_bugs/count-constant":
+				constant["bugs"] += v
+			case "session_batches_identities/count-constant":
+				constant["identities"] += v
+			}
 		}
 		for set, members := range res.Sets {
 			for _, m := range members {
@@ -1161,15 +1182,20 @@ func runC13(tier, replay string) int {
 			if partial[ns] == 0 {
 				r.Inconclusive("no ambiguous " + ns + " prefix was asked while only a part of the matching " + ns + " were loaded")
 			}
+			// the mutating session must have met a change of the population that keeps its size
+			if constant[ns] == 0 {
+				r.Inconclusive("no batch of the mutating sessions replaced " + ns + " while keeping their number")
+			}
 		}
 	}
-	return r.Finish("reference model (sorted population + binary search) predicting unique / multiple(exact list) / none for every queried string; queries = every prefix length 0..64 of every bug id, identity id and comment combined id of real repositories with engineered shared prefixes, plus one-character perturbations (last character, any character of the full id, a non-hex character, one extra character) and ids of the other namespace; APIs: Bugs/Identities ResolvePrefix + ResolveExcerptPrefix, Bugs.ResolveComment, _select.Resolve with and without a preselected bug; the same lookups (all prefixes, last-character perturbations, one extra character, ids of the other namespace; ResolveComment on a sample of comments; ResolveBugCreateMetadata / ResolveIdentityImmutableMetadata on planted values) repeated against the same repository in the load states all-loaded (cache just built), reopened-none, reopened-subset / reopened-complement (every other id in sorted order resolved by full id), lru-small (1..3 loaded entities, then a shuffled mix during which the loaded set changes), every answer compared with the model AND with the answer of the all-loaded state (target or error class + full match list); plus SeparateIds(CombineIds(b,o)[:L]) for 10 002 id pairs x 65 lengths. A query is non-trivial when the prefix is non-empty and the population has at least two members; distinct = distinct (API, query kind, prefix length, expected outcome class)",
+	return r.Finish("reference model (sorted population + binary search) predicting unique / multiple(exact list) / none for every queried string; queries = every prefix length 0..64 of every bug id, identity id and comment combined id of real repositories with engineered shared prefixes, plus one-character perturbations (last character, any character of the full id, a non-hex character, one extra character) and ids of the other namespace; APIs: Bugs/Identities ResolvePrefix + ResolveExcerptPrefix, Bugs.ResolveComment, _select.Resolve with and without a preselected bug; the same lookups (all prefixes, last-character perturbations, one extra character, ids of the other namespace; ResolveComment on a sample of comments; ResolveBugCreateMetadata / ResolveIdentityImmutableMetadata on planted values) repeated against the same repository in the load states all-loaded (cache just built), reopened-none, reopened-subset / reopened-complement (every other id in sorted order resolved by full id), lru-small (1..3 loaded entities, then a shuffled mix during which the loaded set changes), every answer compared with the model AND with the answer of the all-loaded state (target or error class + full match list); then a mutating session per population: the repository reopened, ONE cache kept open, a seed-determined sequence of batches of population changes through the cache API (Bugs().NewRaw + AddCommentRaw, Bugs()/Identities().Remove by full id or shortest unique prefix, Identities().NewRaw, Pull of bugs / identities / comments a peer replica created with ids engineered against entities removed in the same batch, removed earlier or alive, RemoveAll followed by a pull that brings the remote's entities back), a batch being one change or several with no question in between (count kept: remove+create, create+remove, remove+pull, 2+2; grown; shrunk; both namespaces), and after EACH batch the model recomputed over the current population (cross-checked against the stored refs and the comments read through the entity layer) and all lookups asked again with every prefix length 0..64, the last character replaced and one extra character of the ids created / removed / pulled by the batch, their nearest neighbours, ids removed by earlier batches and untouched ones; plus SeparateIds(CombineIds(b,o)[:L]) for 10 002 id pairs x 65 lengths. A query is non-trivial when the prefix is non-empty and the population has at least two members; distinct = distinct (API, query kind, prefix length, expected outcome class)",
 		min, []string{
 			"ids cannot be chosen (sha256 over a serialisation with a random nonce): population sizes and engineered prefix lengths are a function of the seed, the concrete ids are not",
 			"the population is what was committed through the entity API, cross-checked against the ref names read by gitraw; a comment's combined id is taken from Snapshot.Comments and checked to split into prefixes of (bug id, operation id) at every length",
 			"for ResolveComment only success/failure and the returned (bug, comment) are judged; the error type for zero or several matching comments is not prescribed by the statement",
 			"_select.Resolve with a preselected bug may fall back to it when the first argument matches nothing, provided the arguments are handed back untouched",
 			"load states: which bugs are in memory is read back through the hook VerifLoadedBugIds; for identities there is no such hook, the loaded set is the one the recipe resolved by full id (valid on the unchanged tree, used for the evidence counters only, never by the oracle)",
+			"mutating session: the population after a batch is the one the session predicts (local changes applied; after a pull everything the remote holds is present again, comments united) and it is only used when the refs read by gitraw and the comments read by bug.Read agree with it, else the session ends inconclusive; comments are committed before the next question; Remove(prefix) is a lookup by prefix: refusing a prefix that matches exactly one entity with not-found / multiple-match is judged, any other failure of a changing call ends the session inconclusive; identities that authored an operation (and the user identity) are only removed by RemoveAll",
 			"lookups by metadata are outside the statement's wording (id prefixes): only 'the entity when exactly one carries the value, a failure otherwise' is judged against the model, plus equality of the answers between load states",
 		})
 }
